@@ -13,7 +13,7 @@ import z3
 from contracts.pyekf import nis_f
 from pvc.contract import Call, Contract, LoopInv
 from pvc.interp import Builtin, PyDict, PyList, SliceV
-from pvc.sym import Mat, PyRaise, SInt, SMat, SObj, SReal, SSeq, SV, Unsupported, mat_inv, to_int, to_real, wrap
+from pvc.sym import Mat, PyRaise, SInt, SMat, SNum, SObj, SReal, SSeq, SV, Unsupported, mat_inv, to_int, to_real, wrap
 from pvc.symtheory import Str, StrV, ord_f
 
 R = z3.RealSort()
@@ -148,7 +148,9 @@ class World:
             return Builtin(kind, lambda I2, a, k: EstObj(x0_c if kind == "State" else P0_c))
 
         control_cls = SObj("ControlCls", {}, "Control")
-        self.filter = SObj("FilterX", {"sensor_models": sens, "control_size": SInt(self.k), "State": mk("State"), "Covariance": mk("Covariance"), "Control": control_cls, "innovations": self.innovations, "sensor_prediction_uncertainty": self.spu}, "model_")
+        self.filter = SObj("FilterX", {"sensor_models": sens, "control_size": SInt(self.k), "State": mk("State"), "Covariance": mk("Covariance"), "Control": control_cls, "innovations": self.innovations, "sensor_prediction_uncertainty": self.spu,
+            # the exported filter carries the configuration it was compiled with: any maximum step, any threshold
+            "config": SObj("Config", {"max_dt_sec": SNum(z3.Real("filter.config.max_dt_sec")), "innovation_filtering": SNum(z3.Real("filter.config.innovation_filtering"))}, "model_.config")}, "model_")
 
     # spec -----------------------------------------------------------------------------------------
     def row(self, i):
